@@ -20,6 +20,20 @@ type Script struct {
 	n         int
 	usesStr   bool
 	inQuant   int
+	scopes    []*loopInfo // per line: innermost loop of the top-level function in whose body the line was emitted
+	curScope  *loopInfo
+}
+
+// scopeOf brings the scope array up to date (lines appended since the last call belong to the current scope)
+func (s *Script) syncScopes() {
+	for len(s.scopes) < len(s.lines) {
+		s.scopes = append(s.scopes, s.curScope)
+	}
+}
+
+func (s *Script) setScope(li *loopInfo) {
+	s.syncScopes()
+	s.curScope = li
 }
 
 func newScript() *Script {
@@ -119,6 +133,16 @@ func (s *Script) global(name, decl string) {
 
 func (s *Script) mark() int { return len(s.lines) }
 
+// inScope: is the current program point inside loop sc (or one nested in it)?
+func (s *Script) inScope(sc *loopInfo) bool {
+	for c := s.curScope; c != nil; c = c.parent {
+		if c == sc {
+			return true
+		}
+	}
+	return false
+}
+
 // render an obligation: everything up to mark, then the negated goal.
 func (s *Script) render(mark int, guard, goal Term, comment string, logicStrings bool) string {
 	var b strings.Builder
@@ -129,7 +153,11 @@ func (s *Script) render(mark int, guard, goal Term, comment string, logicStrings
 		b.WriteString(d)
 		b.WriteByte('\n')
 	}
-	for _, l := range s.lines[:mark] {
+	s.syncScopes()
+	for i, l := range s.lines[:mark] {
+		if sc := s.scopes[i]; sc != nil && strings.HasPrefix(l, "(assert") && !sc.hasBreak && !s.inScope(sc) {
+			continue // an assumption made inside a loop body that the current program point is not part of
+		}
 		b.WriteString(l)
 		b.WriteByte('\n')
 	}
